@@ -280,6 +280,45 @@ let run (t : string array) : string =
     let env = env_of_records recs (fun _ -> false) in
     (try res_str hex (optimize_from_memory env o (unhex t.(3)))
      with Oracle_miss m -> "oracle-miss " ^ m)
+  (* evalmodel <deflater-opts> <alpha> <final> <init|-> <filters> <order|-> <nimg> <img>... | records *)
+  | "evalmodel" ->
+    let o = parse_opts t.(1) in
+    let alpha = t.(2) = "1" and fin = t.(3) = "1" in
+    let init = if t.(4) = "-" then None else Some (z_of_int (int_of_string t.(4))) in
+    let filters = List.map (fun x -> filter_of (int_of_string x)) (split_on '+' t.(5)) in
+    let nimg = int_of_string t.(7) in
+    let images = List.init nimg (fun i -> parse_img t.(8 + i)) in
+    let recs = split_records t (8 + nimg) in
+    let env = env_of_records recs (fun _ -> false) in
+    (try
+       match evaluator_trials env O filters o.deflate alpha fin images with
+       | Ok outs ->
+         let trials = List.map (fun x -> x.to_trial) outs in
+         let name (tr : trial) = Printf.sprintf "%d.%d" (int_of_z tr.tNth) (int_of_z tr.tFilter) in
+         let optname = function Some tr -> name tr | None -> "none" in
+         let index_of nth f =
+           let rec go i = function
+             | [] -> failwith "unknown trial in order"
+             | (tr : trial) :: r -> if int_of_z tr.tNth = nth && int_of_z tr.tFilter = f then i else go (i + 1) r in
+           go 0 trials in
+         let lts =
+           if t.(6) = "-" then "-" else
+             let evs = List.map (fun s ->
+                 let publish = s.[0] = 'P' in
+                 match split_on '.' (String.sub s 1 (String.length s - 1)) with
+                 | [_; n; f] -> let i = nat_of_int (index_of (int_of_string n) (int_of_string f)) in
+                   if publish then Publish i else Read i
+                 | _ -> failwith "bad order") (split_on ',' t.(6)) in
+             (match run trials (init_state trials init) evs with
+              | Some st ->
+                Printf.sprintf "%s complete=%b received=%s" (optname (min_by_key st.received)) (completeb st)
+                  (String.concat "," (List.sort compare (List.map name st.received)))
+              | None -> "stuck") in
+         Printf.sprintf "ok lts=%s best=%s seq=%s sizes=%s" lts (optname (best_of init trials)) (optname (sequential init trials))
+           (String.concat "," (List.map (fun (tr : trial) -> Printf.sprintf "%s:%d+%d" (name tr) (int_of_z tr.tL) (int_of_z tr.tK)) trials))
+       | Err e -> "err " ^ err_kind e
+       | Panic p -> "panic " ^ panic_kind p
+     with Oracle_miss m -> "oracle-miss " ^ m)
   | "preset" -> "ok " ^ fmt_opts (from_preset (z_of_int (int_of_string t.(1))))
   | "default_opts" -> "ok " ^ fmt_opts default_options
   | "crc32" -> Printf.sprintf "ok %d" (int_of_z (crc32 (unhex t.(1))))
